@@ -146,6 +146,45 @@ Proof.
   intros pv Hp. exact (proj2 (roundtrip_conforming_py f' o ro e s v a pv Ha Hd Hp)).
 Qed.
 
+(** every binary32 leaf the writer produces survives unpack then pack (no hypothesis on the input) *)
+From FA Require Import proofs.FloatStable.
+Theorem elab_floats_stable : forall f o e s v a, elab f o e s v = WOk a -> floats_stable a = true.
+Proof.
+  induction f as [|f IH]; intros o e s v a H; [discriminate|].
+  destruct s.
+  - cbn [elab] in H. destruct v; try discriminate. injection H as <-. reflexivity.
+  - cbn [elab] in H. destruct v; try discriminate. injection H as <-. reflexivity.
+  - cbn [elab] in H. destruct v; try discriminate. destruct ((INT_MIN <=? z) && (z <=? INT_MAX)); [|discriminate]. injection H as <-. reflexivity.
+  - cbn [elab] in H. destruct v; try discriminate. destruct ((LONG_MIN <=? z) && (z <=? LONG_MAX)); [|discriminate]. injection H as <-. reflexivity.
+  - assert (Hn : exists b x, d2s b = Ok x /\ a = AFloat x).
+    { cbn [elab] in H. destruct v; try discriminate; inv_w H; inv_w H; injection H as <-;
+        (destruct (d2s x) as [y| |] eqn:Ed; cbn [of_res] in E0; try discriminate; injection E0 as <-; eauto). }
+    destruct Hn as (b & x & Hd & ->). cbn [floats_stable]. rewrite (d2s_stable _ _ Hd). apply Z.eqb_refl.
+  - cbn [elab] in H. destruct v; try discriminate; inv_w H; injection H as <-; reflexivity.
+  - cbn [elab] in H. destruct v; try discriminate; injection H as <-; reflexivity.
+  - cbn [elab] in H. destruct v; try discriminate. injection H as <-. reflexivity.
+  - cbn [elab] in H. destruct v; try discriminate; [|destruct (len b =? size); discriminate].
+    destruct (len b =? size); [|discriminate]. injection H as <-. reflexivity.
+  - cbn [elab] in H. destruct v; try discriminate. destruct (index_of syms s 0); [|discriminate]. injection H as <-. reflexivity.
+  - assert (Hitems : forall l r, elab_items (elab f o e) s l = WOk r -> floats_stable (AArray r) = true).
+    { intros l r Hi. apply elab_items_inv in Hi. cbn [floats_stable].
+      eapply (Forall2_forallb_r _ (fun _ => true)); [exact Hi|clear; induction l; [reflexivity|exact IHl]|].
+      intros x y Hxy _. cbn beta in *. eapply IH; eassumption. }
+    cbn [elab] in H. destruct v; try discriminate; inv_w H; injection H as <-; eapply Hitems; eassumption.
+  - cbn [elab] in H. destruct v as [| | | | | | |l0|l0|kv]; try discriminate; try (destruct l0; discriminate).
+    inv_w H. injection H as <-. apply elab_map_inv in E. cbn [floats_stable].
+    eapply (Forall2_forallb_r _ (fun _ => true)); [exact E|clear; induction kv; [reflexivity|exact IHkv]|].
+    intros p q [_ Hel] _. cbn beta in *. eapply IH; exact Hel.
+  - apply elab_union_inv in H. destruct H as (i & b & v' & a0 & -> & _ & Hel & _). cbn [floats_stable]. eapply IH; exact Hel.
+  - cbn [elab] in H. destruct v; try discriminate.
+    destruct ((strict o || strict_allow_default o) && has_extras kv fs); [discriminate|]. inv_w H. injection H as <-.
+    apply elab_fields_inv in E. cbn [floats_stable].
+    eapply (Forall2_forallb_r _ (fun _ => true)); [exact E|clear; induction fs; [reflexivity|exact IHfs]|].
+    intros fd y (v' & _ & Hel) _. cbn beta in *. eapply IH; exact Hel.
+  - cbn [elab] in H. destruct (lookup e n) as [s'|]; [|discriminate]. eapply IH; exact H.
+  - cbn [elab] in H. eapply IH; exact H.
+Qed.
+
 (** C09 closure for what the writer wrote: write v, read the bytes with return_named_type=True, write the result back:
     the identical bytes (side condition [closb] on the written value, see model/Conform.v) *)
 From FA Require Import proofs.ClosureProofs.
@@ -159,5 +198,5 @@ Proof.
   pose proof (elab_typedn f o e s v a H He Hs Hv (elab_floats_ok _ _ _ _ _ _ H Hfe Hfs Hfv)) as Ht.
   split; [unfold write; rewrite H; reflexivity|]. split.
   - intros f' r Hf. unfold read. rewrite (wire_dec f e s a Ht f' Hf r). cbn [bind]. rewrite Hp. reflexivity.
-  - exact (closure_bytes f o e s a pv Ht Hc Hp).
+  - exact (closure_bytes f o e s a pv Ht Hc (elab_floats_stable _ _ _ _ _ _ H) Hp).
 Qed.
